@@ -112,6 +112,8 @@ def wellformed(ir):
     return out
 
 
+UNCONSUMED_COLUMN_KWARGS = frozenset(("server_default", "index", "unique", "autoincrement", "onupdate", "key", "info",
+                                      "quote", "system", "sort_order", "server_onupdate"))
 REST_FOOTER_MARKERS = ("Example:", "Usage:", "Note:", ">>> ", ":raises")
 
 
@@ -119,7 +121,10 @@ def mechanism(parser, rule, detail, source, extra):
     """known-finding mechanism for a shape deviation, from the *shape of the input* and the rule"""
     klass = CUR.get("klass") or ""
     src = source or ""
-    if parser.startswith("sqlalchemy") and rule.startswith("entry-extra-keys:"):
+    if parser.startswith("sqlalchemy") and rule.startswith("entry-extra-keys:") and set(
+            rule.split(":", 1)[1].split(",")) <= UNCONSUMED_COLUMN_KWARGS:
+        # only keywords the parser does not interpret; a leaked *interpreted* keyword (primary_key, nullable,
+        # foreign_key, default, doc, comment) is a different defect
         return "sqlalchemy.parse.column-kwargs-leak-as-entry-keys"
     if rule == "typ-not-expression" and parser in ("docstring", "parse_docstring", "function", "class_") and (
             ":param" in src or ":return" in src or ":rtype" in src or ":type" in src) and any(
@@ -244,7 +249,7 @@ def setup_shard(ctx, P):
 
 def streams(ctx):
     return [("emitted", ctx.scale(120, 2500)), ("docstrings", ctx.scale(1500, 40000)), ("functions", ctx.scale(600, 15000)),
-            ("tokens", ctx.scale(3000, 80000))]
+            ("tokens", ctx.scale(3000, 80000)), ("sqlalchemy_hand", ctx.scale(800, 20000))]
 
 
 def gen_function(r):
@@ -306,9 +311,57 @@ def gen_function(r):
     return "%s%s foo(%s)%s:\n%s" % (deco, kw, ", ".join(parts), ret, body)
 
 
+def gen_sqlalchemy_model(r):
+    """hand-written SQLAlchemy models (independent of the emitter): explicit flag values, optional docs, extra keywords"""
+    cols = []
+    names = r.sample(irgen.NAMES[:24], r.randint(2, 5))
+    documented = []
+    for i, nm in enumerate(names):
+        sqlt, pyt = r.choice((("Integer", "int"), ("String", "str"), ("Float", "float"), ("Boolean", "bool"), ("JSON", "dict"),
+                              ("Enum('a', 'b', name='%s')" % nm, "str"), ("String(20)", "str"), ("LargeBinary", "bytes")))
+        kws = []
+        if i == 0:
+            kws.append("primary_key=True")
+        elif r.random() < 0.35:
+            kws.append("primary_key=False")
+        if r.random() < 0.3 and sqlt == "Integer" and i:
+            sqlt += ", ForeignKey(%r)" % r.choice(("node.id", "element_tbl.node_id", ""))
+        if r.random() < 0.4:
+            kws.append("nullable=%s" % r.choice(("True", "False")))
+        if r.random() < 0.4:
+            kws.append("default=%s" % {"int": "5", "str": "'s'", "float": "0.0", "bool": "False", "dict": "None",
+                                       "bytes": "None"}[pyt])
+        if r.random() < 0.2:
+            kws.append(r.choice(("index=True", "unique=True", "autoincrement=False", "server_default='x'")))
+        if r.random() < 0.5:
+            kws.append("%s=%r" % (r.choice(("doc", "comment")), irgen.rand_doc(r, stop=False)))
+        elif r.random() < 0.5:
+            documented.append(nm)
+        cols.append((nm, sqlt, kws))
+    doc = "\n    %s\n\n%s\n    " % (irgen.rand_doc(r, 4, stop=False), "\n".join(
+        "    :cvar %s: %s" % (nm, irgen.rand_doc(r, stop=False)) for nm in documented))
+    if r.random() < 0.5:
+        body = "\n".join("    %s = Column(%s)" % (nm, ", ".join([t] + kws)) for nm, t, kws in cols)
+        return 'class Foo(Base):\n    """%s"""\n    __tablename__ = "foo"\n\n%s\n' % (doc, body), "sqlalchemy"
+    body = ",\n    ".join("Column(%s)" % ", ".join([repr(nm), t] + kws) for nm, t, kws in cols)
+    return 'foo = Table(\n    "foo",\n    metadata,\n    %s,\n    comment=%r,\n)\n' % (body, irgen.rand_doc(r, 4)), "sqlalchemy_table"
+
+
 def run_case(ctx, P, stream, idx):
     r = ctx.rng(stream, idx)
     CUR.update(P=P, stream=stream, idx=idx, klass=stream)
+    if stream == "sqlalchemy_hand":
+        src, fmt = gen_sqlalchemy_model(r)
+        P.case({"src": src}, klass="sqlalchemy_hand/" + fmt, sample={"model": src})
+        node = ast.parse(src).body[0]
+        for parser in ((cdd.sqlalchemy.parse.sqlalchemy, cdd.sqlalchemy.parse.sqlalchemy_hybrid) if fmt == "sqlalchemy"
+                       else (cdd.sqlalchemy.parse.sqlalchemy_table,)):
+            try:
+                parser(deepcopy(node))
+            except Exception:
+                P.count("parse.raised")
+        CUR.update(P=None)
+        return
     before = sum(P.monitors.values())
     if stream == "emitted":
         ir = irgen.rand_ir(r, nparams=r.randint(0, 6), suffix_defaults=r.random() < 0.6,
